@@ -1,9 +1,18 @@
 (* C08 — property theorems (statements only; proofs live in Acme.C08.Proofs...). *)
 From Coq Require Import NArith List.
-From Acme.C08 Require Import DbcAst Chars DbcLex DbcParse DbcWrite ProofsLex.
+From Acme.C08 Require Import DbcAst Chars DbcLex DbcParse DbcWrite Expr ProofsLex ProofsLexPrint.
 Import ListNotations.
 
 (* every scan consumes a prefix of the remaining text *)
 Theorem scan_consumes_prefix : forall ud c r k w rest, scan_after ud c r = (k, w, rest) -> r = w ++ rest.
 Proof. exact ProofsLex.scan_after_split. Qed.
 Print Assumptions scan_consumes_prefix.
+
+(* lex_print_tokens: for every list of writer pieces (tokens and blanks) in which every token is
+   well formed for its kind and is followed by a blank or punctuation that cannot be glued to it
+   ([pok]), the parser's view of the rendered text is exactly the printed tokens, then end of
+   input — for every extension [ud] of the digit class outside ASCII. *)
+Theorem lex_print_tokens : forall ud, ud_ok ud -> forall ps, pok ps [] ->
+  tokens_of_text ud (render ps) = Some (toks_of ps ++ [eof_tok]).
+Proof. exact ProofsLexPrint.lex_print_tokens. Qed.
+Print Assumptions lex_print_tokens.
